@@ -145,6 +145,10 @@ func (in *Interp) registerIntrinsics(reg func(string, extFn)) {
 		in.path.IntMode = true
 		return nil
 	})
+	r("vfLooseLibraries", func(in *Interp, fr *frame, fn *ssa.Function, args []Value) Value {
+		in.path.Loose = true
+		return nil
+	})
 	r("vfSymbolic", func(in *Interp, fr *frame, fn *ssa.Function, args []Value) Value {
 		return ts.True
 	})
